@@ -5,7 +5,7 @@
                  "_rb_chunk_reclaim.function_pointer_call.1/verif_reclaim_fn"],
  "drops": ["qb_util_log/qb_util_perror diagnostics compiled out (stubs/nolog.h)"],
  "pre_unwindset": ["qb_rb_chunk_step.0:1"],
- "expect_classes": ["loop_invariant_step", "assertion"], "timeout": 300, "fallback_unwind": 4}
+ "expect_classes": ["loop_invariant_step", "assertion"], "timeout": 900, "fallback_unwind": 4}
 */
 /* qb_rb_chunk_alloc in OVERWRITE mode, loop contract on the reclaim loop (any number of iterations):
  * given chain validity at each chunk it visits (hypothesis instantiated by verif_chain_hypothesis: the
